@@ -128,7 +128,14 @@ def seed_filters():
     objs[14] = Stream(D(Filter=N("LZWDecode")), FL.lzw_pack(FL.lzw_codes(t5)))
     objs[10], objs[11], objs[12], objs[13] = s1, s2, s3, s4
     objs[30] = len(s1[2])
-    objs[3] = D(Type=N("Page"), Parent=R(2), Contents=[R(10), R(11), R(12), R(13), R(14)])
+    # sixth: a content stream stored as a Group 4 fax image whose 40 pixels x 2 rows spell `q Q \n` twice
+    from vlib import ccittenc as CE
+    t6 = b"q Q \nq Q \n"
+    rows = CE.unpack_rows(t6, 40, False)
+    data6, _ = CE.encode(rows, 40, lambda opts: opts[0])
+    assert CE.pack_rows(rows, 40, False) == t6
+    objs[15] = Stream(D(Filter=N("CCITTFaxDecode"), DecodeParms=D(K=-1, Columns=40, Rows=2)), data6)
+    objs[3] = D(Type=N("Page"), Parent=R(2), Contents=[R(10), R(11), R(12), R(13), R(14), R(15)])
     objs[1] = D(Type=N("Catalog"), Pages=R(2))
     objs[2] = D(Type=N("Pages"), Kids=[R(3)], Count=1, MediaBox=[0, 0, 612, 792], Resources=res)
     return {"name": "filters", "objs": objs, "form": "table"}
@@ -169,7 +176,46 @@ def seed_objstm():
     return s
 
 
-ALL = [seed_simple, seed_cid, seed_graphics, seed_filters, seed_structure, seed_objstm]
+def _seed_crypt(name, V, R, bits, cfm):
+    """An encrypted document whose objects are held in their *encrypted* form and whose /Encrypt dictionary is an
+    ordinary indirect object (50), so that the generic faults reach every entry of it.  Opens with the empty user
+    password."""
+    import random
+
+    from vlib import crypt as CR
+
+    objs = {}
+    objs[20] = W.simple_font("CryptSeed")
+    res = {b"Font": {b"F1": R_(20)}}
+    c1 = b"BT /F1 12 Tf 50 700 Td (Secret text) Tj ET"
+    _pages(objs, [c1], res)
+    objs[21] = D(Title=b"A title", Author=b"\xfe\xff\x00A")
+    objs[22] = Stream(D(Type=N("Metadata"), Subtype=N("XML")), b"<x:xmpmeta/>")
+    objs[1][b"Metadata"] = R_(22)
+    id0 = b"0123456789abcdef"
+    h = CR.Handler(V, R, bits, cfm, True, CR.make_P(True, True, True), id0, "", "owner", random.Random(5))
+    enc = {n: h.enc_value(n, 0, v) for n, v in objs.items()}
+    enc[50] = h.encrypt_dict()
+    return {"name": name, "objs": enc, "form": "table", "trailer": {b"Encrypt": R_(50), b"ID": [id0, id0], b"Info": R_(21)}}
+
+
+R_ = R
+
+
+def seed_crypt_rc4():
+    return _seed_crypt("crypt-rc4", 2, 3, 128, None)
+
+
+def seed_crypt_aes():
+    return _seed_crypt("crypt-aes", 4, 4, 128, "AESV2")
+
+
+def seed_crypt_r6():
+    return _seed_crypt("crypt-r6", 5, 6, 256, "AESV3")
+
+
+ALL = [seed_simple, seed_cid, seed_graphics, seed_filters, seed_structure, seed_objstm, seed_crypt_rc4, seed_crypt_aes,
+       seed_crypt_r6]
 
 
 def write(seed, objs=None, trailer_extra=None):
@@ -177,6 +223,10 @@ def write(seed, objs=None, trailer_extra=None):
     cross-reference stream dictionary) over the regular ones; the value "SELFPOS" stands for the file's own startxref
     offset."""
     objs = seed["objs"] if objs is None else objs
+    if seed.get("trailer"):
+        merged = dict(seed["trailer"])
+        merged.update(trailer_extra or {})
+        trailer_extra = merged
     if trailer_extra and any(v == "SELFPOS" for v in trailer_extra.values()):
         import re
         probe = write(seed, objs, {k: (0 if v == "SELFPOS" else v) for k, v in trailer_extra.items()})
